@@ -261,6 +261,7 @@ fn default_drop_tables() -> IntSet<Tag> {
     s
 }
 
+static CLASS_SEEN: std::sync::Mutex<BTreeMap<String, u32>> = std::sync::Mutex::new(BTreeMap::new());
 static LAST_PANIC_AT: std::sync::Mutex<String> = std::sync::Mutex::new(String::new());
 fn install_panic_hook() {
     std::panic::set_hook(Box::new(|info| {
@@ -630,6 +631,17 @@ fn oracle(cx: &OracleCtx, req: &Req, res: &Result<Vec<u8>, String>, st: &mut Sta
         st.count(&format!("oracle.fail.{}", class.unwrap_or("unclassified")));
         if class.is_none() && std::env::var("C17_VERBOSE").is_ok() {
             eprintln!("UNCLASSIFIED {} {} g={:?} u={:?} f={:#x} {} {}", cx.name, req.label, &req.gids[..req.gids.len().min(10)], &req.unis[..req.unis.len().min(10)], req.flags, what, extra);
+        }
+        // Stats keeps the first 50 failures only: record at most 4 per diagnosed class so that every class
+        // (and any unclassified failure) is visible to the driver; all of them are counted above
+        if let Some(c) = class {
+            let mut seen = CLASS_SEEN.lock().unwrap();
+            let k = seen.entry(c.to_string()).or_insert(0);
+            *k += 1;
+            if *k > 4 {
+                st.count("oracle_failures");
+                return;
+            }
         }
         st.oracle_failure(json!({"key": key, "font": cx.name, "label": req.label, "gids": req.gids.iter().take(40).collect::<Vec<_>>(), "unicodes": req.unis.iter().take(40).collect::<Vec<_>>(), "flags": req.flags, "what": what, "detail": extra}));
     };
